@@ -20,7 +20,7 @@ ASSUMPTIONS = ["reference ZiPatch semantics as implemented by XIVLauncher's ZiPa
 
 def plan(tier):
     if tier == "quick":
-        return [("debug", 8, dict(maxlen=3, nrand=40, nchain=12, strace=0))]
+        return [("debug", 12, dict(maxlen=3, nrand=40, nchain=12, strace=0)), ("release", 4, dict(maxlen=2, nrand=30, nchain=8, strace=0))]
     return [("debug", 16, dict(maxlen=4, nrand=500, nchain=150, strace=12, far=4)), ("release", 8, dict(maxlen=3, nrand=300, nchain=80, strace=0, far=2)),
             ("asan", 4, dict(maxlen=1, nrand=40, nchain=10, strace=0))]
 
